@@ -42,40 +42,40 @@ type Obligation struct {
 // Exec accumulates declarations, definitional assertions and obligations for one top-level
 // verification task (one function, one pair lemma, ...).
 type Exec struct {
-	V           *Verifier
-	pkg         string
-	name        string
-	prefix      string
-	decls       []string
-	declared    map[string]bool
-	asserts     []string
-	obs         []*Obligation
-	n           int
-	compSort    map[string]string
-	unsupported []string
-	obCount     map[string]int
-	trusted     map[string]bool // assumed contracts / models used
-	inlined     map[string]bool
-	havocAll    []string // call sites that havoc everything
-	paramNames  []string
-	epochN      int
-	splitLabel  string
-	noSafety    bool // pair lemma sides: safety obligations are not emitted
-	curPos      token.Pos
-	wrapped     int
-	noTerm      []string // loops without a decreases clause
-	strLens     map[string]int
-	refN        int
-	usedDefs    map[string]bool
-	defDecls    []string
-	mustWrap    map[string]bool
+	V            *Verifier
+	pkg          string
+	name         string
+	prefix       string
+	decls        []string
+	declared     map[string]bool
+	asserts      []string
+	obs          []*Obligation
+	n            int
+	compSort     map[string]string
+	unsupported  []string
+	obCount      map[string]int
+	trusted      map[string]bool // assumed contracts / models used
+	inlined      map[string]bool
+	havocAll     []string // call sites that havoc everything
+	paramNames   []string
+	epochN       int
+	splitLabel   string
+	noSafety     bool // pair lemma sides: safety obligations are not emitted
+	curPos       token.Pos
+	wrapped      int
+	noTerm       []string // loops without a decreases clause
+	strLens      map[string]int
+	refN         int
+	usedDefs     map[string]bool
+	defDecls     []string
+	mustWrap     map[string]bool
 	curCallInstr ssa.Instruction
-	modelTerms  []modelTerm
-	reveal      map[string]bool
-	textNames   bool
-	maxInline   int
-	subst       map[string]string // terms fixed by a split -> literal
-	preWrap     map[string]bool   // sweep: range obligations known (from the baseline) not to discharge
+	modelTerms   []modelTerm
+	reveal       map[string]bool
+	textNames    bool
+	maxInline    int
+	subst        map[string]string // terms fixed by a split -> literal
+	preWrap      map[string]bool   // sweep: range obligations known (from the baseline) not to discharge
 }
 
 // peekName returns the name the next obligation of this kind at pos would get (text mode).
@@ -521,24 +521,24 @@ type retRec struct {
 }
 
 type Frame struct {
-	fn       *ssa.Function
-	fc       *FuncContract
-	vals     map[ssa.Value]Val
-	params   []Val
-	entry    *State
-	top      bool
-	depth    int
-	loops    map[*ssa.BasicBlock]*loopInfo
-	rets     []retRec
-	propTags []string
-	callPath string
-	parent   *Frame
-	sparams  map[*ssa.Parameter][]sroot
-	edgePC   map[[2]*ssa.BasicBlock]string
+	fn            *ssa.Function
+	fc            *FuncContract
+	vals          map[ssa.Value]Val
+	params        []Val
+	entry         *State
+	top           bool
+	depth         int
+	loops         map[*ssa.BasicBlock]*loopInfo
+	rets          []retRec
+	propTags      []string
+	callPath      string
+	parent        *Frame
+	sparams       map[*ssa.Parameter][]sroot
+	edgePC        map[[2]*ssa.BasicBlock]string
 	unknownParams bool
-	callSite ssa.Instruction
-	region   *loopInfo
-	regionExits []*State
+	callSite      ssa.Instruction
+	region        *loopInfo
+	regionExits   []*State
 }
 
 func (x *Exec) findLoops(fr *Frame) {
